@@ -9,8 +9,56 @@ FUNCS = ['yalafi.mathparser.MathParser.' + n for n in ('expand_inline_math', 'ex
 def SELECT(name):
     return not cm.is_safety(name)
 
+
+def lemmas():
+    """every statement of replace_section that stores to `repls` is a
+    rotation to the left by one: the statement itself (taken from the real
+    AST) is executed on concrete lists of length 1..6"""
+    import ast
+    from pyvc import front
+    fi = front.repo().funcs['yalafi.mathparser.MathParser.replace_section']
+    stores = []
+
+    def root(t):
+        while isinstance(t, (ast.Subscript, ast.Attribute)):
+            t = t.value
+        return t.id if isinstance(t, ast.Name) else None
+    for n in ast.walk(fi.node):
+        if isinstance(n, (ast.Assign, ast.AugAssign, ast.Delete)):
+            ts = n.targets if isinstance(n, (ast.Assign, ast.Delete)) \
+                else [n.target]
+            if any(root(t) == 'repls' for t in ts):
+                stores.append(n)
+        elif isinstance(n, ast.Expr) and isinstance(n.value, ast.Call) and \
+                isinstance(n.value.func, ast.Attribute) and \
+                root(n.value.func) == 'repls' and n.value.func.attr in (
+                    'append', 'extend', 'insert', 'pop', 'remove', 'clear',
+                    'sort', 'reverse'):
+            stores.append(n)
+    yield ('rotation:store-to-repls-found', len(stores) >= 1,
+           '%d statements' % len(stores), False)
+    for n in stores:
+        ok, shown = True, ''
+        code = compile(ast.Module(body=[n], type_ignores=[]), '<stmt>',
+                       'exec')
+        for k in range(1, 7):
+            lst = list(range(k))
+            env = {'repls': lst}
+            try:
+                exec(code, {}, env)
+            except Exception as e:      # noqa
+                ok, shown = False, 'raises %r' % (e,)
+                break
+            if env['repls'] is not lst or lst != list(range(1, k)) + [0]:
+                ok, shown = False, '%r -> %r' % (list(range(k)),
+                                                 env['repls'])
+                break
+        yield ('rotation:store-rotates-left-by-one@%d' % n.lineno, ok,
+               '`%s`: %s' % (ast.unparse(n), shown))
+
+
 TRUSTED = cm.TRUSTED_CORE
 ASSUMPTIONS = cm.ASSUME_CORE + ['known finding F15 applies to expand_math_section']
-LEVEL_TEXT = 'Proves for replace_section / expand_inline_math: every emitted token is a fresh fixed Text/Space token or a pass-through text token, Ok for the source, positioned inside the ghost interval spanned by the tokens of the formula (never at an unrelated offset); the placeholder collection keeps its length under the rotation (repls[0] always exists); the result of expand_inline_math starts and ends with an Action token; the maths section loop emits only maths-class tokens, text tokens from \\\\text-like macros, error marks, or results of environment ends. NOT proved: exactly-one-placeholder and rotate-by-one (order/content of summarised lists), detect_math_parts (assumed contract), rotation across a document.'
+LEVEL_TEXT = 'Proves for replace_section / expand_inline_math: every emitted token is a fresh fixed Text/Space token or a pass-through text token, Ok for the source, positioned inside the ghost interval spanned by the tokens of the formula (never at an unrelated offset); the placeholder collection keeps its length under the rotation (repls[0] always exists); the result of expand_inline_math starts and ends with an Action token; the maths section loop emits only maths-class tokens, text tokens from \\\\text-like macros, error marks, or results of environment ends. for inline formulas every loop iteration performs exactly as many stores to the placeholder collection as it emits placeholder tokens (0 or 1; ghost counters, loop body contract), and every store to the collection in replace_section is a rotation to the left by one in place (the statement from the real AST evaluated on lists of length 1..6) -- so each inline placeholder is preceded by exactly one rotation. NOT proved: that the emitted token reads index 0 after the rotation as a content equation (summarised lists carry no order), detect_math_parts (assumed contract), rotation state across a document.'
 LEVEL_NOTE = 'detect_math_parts is represented by an assumed contract (parts are non-empty lists of maths tokens; other tokens are text tokens).'
 TECHNIQUE = 'contract-based deductive verification: per-function postconditions and loop invariants over the real AST, z3; end-to-end sentence of the property not decided'
